@@ -34,7 +34,9 @@ def alphabet21():
     A += [cm(P1, X, rts(20, 3, 255)), cm(P1, X, rts(0, 0, 1)), cm(P1, X, rts(20, 0, 255)),
           cm(P1, X, rts(0xFFFF, 255, 255)), cm(P1, X, rts(9, 2, 0)), cm(P2, X, rts(20, 3, 1)),
           cm(P1, F, rts(20, 3, 255)), cm(P1, 255, rts(20, 3, 255)), cm(X, X, rts(20, 3, 255)),
-          cm(254, X, rts(20, 3, 255)), cm(255, X, rts(20, 3, 255))]
+          cm(254, X, rts(20, 3, 255)), cm(255, X, rts(20, 3, 255)),
+          # connection management from the global address 255: matches the key of an own broadcast session
+          cm(255, X, [17, 1, 1, 255, 255] + PGN), cm(255, X, [19, 17, 0, 3, 255] + PGN), cm(255, X, [255, 1, 255, 255, 255] + PGN)]
     cts = lambda n, nxt: [17, n, nxt, 255, 255] + PGN
     A += [cm(P1, X, cts(1, 1)), cm(P1, X, cts(1, 2)), cm(P1, X, cts(1, 3)), cm(P1, X, cts(2, 1)),
           cm(P1, X, cts(0, 255)), cm(P1, X, cts(255, 1)), cm(P1, X, cts(1, 4)), cm(P1, X, cts(1, 0)),
@@ -91,6 +93,9 @@ def alphabet22():
           cm(P1, X, 15, 0, 0xFFFFFF, 0xFFFFFF, 255, 1), cm(P1, X, 15, 12, 0xFFFFFF, 0xFFFFFF, 255, 1),
           cm(P2, X, 15, 1, 0xFFFFFF, 0xFFFFFF, 255, 3),
           cm(P1, X, 7, 0, 1, 1, 1, 1), cm(P1, X, 0, 0, 150, 3, 255, 0, n=8), cm(P1, X, 0, 0, 150, 3, 255, 0, n=0)]
+    # connection management from the global address 255 (illegal source): matches the key of an own broadcast session
+    A += [cm(255, X, 3, 0, 176, 3, 255, 255), cm(255, X, 1, 0, 0xFFFFFF, 1, 1, 0), cm(255, X, 15, 0, 0xFFFFFF, 0xFFFFFF, 255, 1),
+          cm(255, X, 2, 0, 176, 3, 0, 0)]
     # multi-PG frames (pf 0x25): one good C-PG, truncated, oversized length, padding only, too short
     hdr = lambda tos, ln: [(tos << 5), 0xF0, 0x04, ln]
     A += [fsym(0x25, X, P1, hdr(2, 8) + [1, 2, 3, 4, 5, 6, 7, 8]), fsym(0x25, X, P1, hdr(2, 20) + [1, 2, 3, 4, 5]),
